@@ -51,6 +51,10 @@ def pool(ctx):
     op({"pattern": [{"mov": ["&a", "&b"]}, "call", {"movq": ["&c", "&a"]}]})
     op({"macros": [{"name": "@m", "pattern": [{"$or": ["mov", "add"]}]}], "pattern": ["@m", "call"]})
     op({"pattern": ["@x", "ret"]}, macro_docs=[{"macros": [{"name": "@x", "pattern": "pop"}]}])
+    # the same macro name defined differently by another run's macro file, by the rule file itself, and not at all
+    op({"pattern": ["@x", "mov"]}, macro_docs=[{"macros": [{"name": "@x", "pattern": "push"}]}])
+    op({"macros": [{"name": "@x", "pattern": "add"}], "pattern": ["@x", "pop"]})
+    op({"macros": [{"name": "@y", "pattern": "add"}], "pattern": ["@x", "ret"]})
     op({"config": {"sections": [".text2"]}, "pattern": ["pop"]}, text=None, binary_path=obj)
     op({"config": {"sections": [".text", ".text2"]}, "pattern": ["push"]}, text=None, binary_path=obj, addr_only=True)
     op({"pattern": ["ret"]}, text=None, binary_path=obj, ret="stream")
@@ -79,7 +83,7 @@ def model_run(ctx, op, obj_texts):
 
 def run(ctx, factor):
     g, rep = ctx.g, ctx.report
-    rep.rule = ("a pool of 20 complete operations (differing in full-match flags, sections, address ranges, instruction/"
+    rep.rule = ("a pool of 23 complete operations (differing in full-match flags, sections, address ranges, instruction/"
                 "operand captures, in-file and extra-file macros, assembly/binary input, modes; five of them failing, some "
                 "after having written part of the config) ; random sequences of 2-6 (thorough: up to 10) operations run in "
                 "ONE interpreter, every result compared with the same operation run alone in a FRESH interpreter, and with "
